@@ -13,7 +13,6 @@ import (
 	"math/rand"
 	"os"
 	"sort"
-	"strings"
 	"testing"
 	"time"
 
@@ -33,8 +32,8 @@ var slipForkMode = "post"
 func init() {
 	switch v := os.Getenv("C20_SLIPFORK"); v {
 	case "cross":
-		// prime blocks 3..7 reprice with the pre-fork rule, 8.. with the post-fork rule
-		params.ConversionSlipChangeBlock = 7
+		// prime blocks 3..9 reprice with the pre-fork rule, 10.. with the post-fork rule
+		params.ConversionSlipChangeBlock = 9
 		slipForkMode = "cross"
 	case "pre":
 		slipForkMode = "pre" // the production value (285000): the whole history is pre-fork
@@ -338,9 +337,14 @@ func (h *hist) usableUtxos(minDenom uint8) []hnet.Utxo {
 // minQiFee is the smallest fee (qits) the origin accepts for a conversion tx
 // with nIn inputs and nOut outputs on top of the current head, and what one
 // qit of fee is worth there (its).
-func (h *hist) minQiFee(nIn, nOut int) (int64, *big.Int) {
+func (h *hist) minQiFee(nIn, nOut, nConv int) (int64, *big.Int) {
 	head := h.n.Heads()[2]
-	gas := uint64(nIn)*params.SloadGas + uint64(nOut)*params.CallValueTransferGas + params.EcrecoverGas + params.QiToQuaiConversionGas
+	intrinsic := uint64(nIn)*params.SloadGas + uint64(nOut)*params.CallValueTransferGas + params.EcrecoverGas
+	gas := intrinsic + params.QiToQuaiConversionGas
+	// the block is only valid if fee / (intrinsic + ETXGas per conversion output) reaches the base fee
+	if g := intrinsic + uint64(nConv)*params.ETXGas; g > gas {
+		gas = g
+	}
 	base := new(big.Int).Mul(head.BaseFee(), big.NewInt(102)) // the next blocks' base fee drifts a little
 	base.Div(base, big.NewInt(100))
 	wei := new(big.Int).Mul(new(big.Int).SetUint64(gas), base)
@@ -366,7 +370,7 @@ func (h *hist) qiToQuai(convDenoms []uint8, slipField int, extraGas uint64, amou
 			maxD = d
 		}
 	}
-	minFee, qit := h.minQiFee(1, len(convDenoms)+7)
+	minFee, qit := h.minQiFee(1, len(convDenoms)+7, len(convDenoms))
 	extra := new(big.Int).Mul(new(big.Int).SetUint64(extraGas), h.n.Heads()[2].BaseFee())
 	extra.Div(extra, qit)
 	feeTarget := minFee + extra.Int64()
@@ -382,6 +386,70 @@ func (h *hist) qiToQuai(convDenoms []uint8, slipField int, extraGas uint64, amou
 	if in == nil {
 		h.submitErr["qi->quai: no input covering the amount and fee"]++
 		return nil
+	}
+	change := new(big.Int).Sub(types.Denominations[in.Denom], need)
+	var changeDenoms []uint8
+	for d := int(in.Denom) - 1; d >= 0 && change.Sign() > 0 && len(changeDenoms) < 7; d-- {
+		for change.Cmp(types.Denominations[uint8(d)]) >= 0 && len(changeDenoms) < 7 {
+			changeDenoms = append(changeDenoms, uint8(d))
+			change.Sub(change, types.Denominations[uint8(d)])
+		}
+	}
+	return h.qiToQuaiRaw(*in, convDenoms, changeDenoms, slipField, amountClass, scenario)
+}
+
+// splitCount returns the greedy split of v (qits) into denominations below maxDenom.
+func splitBelow(v int64, maxDenom uint8) []uint8 {
+	var out []uint8
+	for d := int(maxDenom) - 1; d >= 0 && v > 0; d-- {
+		dv := types.Denominations[uint8(d)].Int64()
+		for v >= dv {
+			out = append(out, uint8(d))
+			v -= dv
+		}
+	}
+	return out
+}
+
+// qiToQuaiTight builds a conversion whose fee exceeds the origin's minimum by
+// at most a few qits, so that the ETX carries (almost) no gas for the refund
+// branch: the change must split into exactly the number of outputs the fee
+// was computed for.
+func (h *hist) qiToQuaiTight(convDenoms []uint8, slipField int, amountClass, scenario string) *conv {
+	amount := int64(0)
+	maxD := uint8(0)
+	for _, d := range convDenoms {
+		amount += types.Denominations[d].Int64()
+		if d > maxD {
+			maxD = d
+		}
+	}
+	for _, u := range h.usableUtxos(0) {
+		D := types.Denominations[u.Denom].Int64()
+		if u.Denom <= maxD || D < amount || D-amount > 5000 {
+			continue
+		}
+		for e := int64(0); e <= 3; e++ {
+			for k := 0; k <= 8; k++ {
+				minFee, _ := h.minQiFee(1, len(convDenoms)+k, len(convDenoms))
+				change := D - amount - minFee - e
+				if change < 0 {
+					continue
+				}
+				if sp := splitBelow(change, u.Denom); len(sp) == k {
+					return h.qiToQuaiRaw(u, convDenoms, sp, slipField, amountClass, scenario)
+				}
+			}
+		}
+	}
+	h.submitErr["qi->quai tight: no input/change combination"]++
+	return nil
+}
+
+func (h *hist) qiToQuaiRaw(in hnet.Utxo, convDenoms, changeDenoms []uint8, slipField int, amountClass, scenario string) *conv {
+	amount := new(big.Int)
+	for _, d := range convDenoms {
+		amount.Add(amount, types.Denominations[d])
 	}
 	recipient := h.freshQuaiRecipient()
 	used := map[string]bool{string(in.Addr): true}
@@ -401,30 +469,26 @@ func (h *hist) qiToQuai(convDenoms []uint8, slipField int, extraGas uint64, amou
 	for _, d := range convDenoms {
 		outs = append(outs, hnet.QiOut{Denom: d, Addr: recipient.Bytes()})
 	}
-	change := new(big.Int).Sub(types.Denominations[in.Denom], need)
-	nChange := 0
-	for d := int(in.Denom) - 1; d >= 0 && change.Sign() > 0 && nChange < 7; d-- {
-		for change.Cmp(types.Denominations[uint8(d)]) >= 0 && nChange < 7 {
-			a := pick()
-			if a == nil {
-				break
-			}
-			outs = append(outs, hnet.QiOut{Denom: uint8(d), Addr: a})
-			change.Sub(change, types.Denominations[uint8(d)])
-			nChange++
+	for _, d := range changeDenoms {
+		a := pick()
+		if a == nil {
+			// no further distinct wallet address: more change than the tx can place, the rest becomes fee
+			break
 		}
+		outs = append(outs, hnet.QiOut{Denom: d, Addr: a})
 	}
 	sf := slipField
 	if sf < 0 {
 		sf = 0 // the 22-byte data always carries a slip field
 	}
 	data := append(slipBytes(sf), refund...)
-	tx, err := h.w.QiTx([]hnet.Utxo{*in}, outs, data)
+	tx, err := h.w.QiTx([]hnet.Utxo{in}, outs, data)
 	if err != nil {
 		h.submitErr["qi->quai build: "+trimErr(err)]++
+		delete(h.tracked, recipient.Bytes20())
 		return nil
 	}
-	c := &conv{Dir: dirQiToQuai, Tx: tx, Amount: amount, SlipField: sf, SlipEff: clampSlip(sf), Inputs: []hnet.Utxo{*in}, Recipient: recipient, Refund: refund,
+	c := &conv{Dir: dirQiToQuai, Tx: tx, Amount: amount, SlipField: sf, SlipEff: clampSlip(sf), Inputs: []hnet.Utxo{in}, Recipient: recipient, Refund: refund,
 		AmountClass: amountClass, SlipClass: slipClass(sf), Scenario: scenario}
 	if !h.submit(c, "qi->quai") {
 		delete(h.tracked, recipient.Bytes20())
@@ -675,10 +739,20 @@ func (h *hist) period(scenario string, nonPrime int) bool {
 				if us := h.usableUtxos(8); len(us) > 0 {
 					h.qiToQuai([]uint8{us[0].Denom - 1, 6}, 30, 0, "beyond-10x-flow", scenario)
 				}
-				// a refund that needs ten outputs while the fee above the minimum pays for fewer
 				if us := h.usableUtxos(10); len(us) > 0 {
 					h.qiToQuai([]uint8{9, 9, 9, 9, 8, 7, 6, 6, 6, 6}, 30, 0, "beyond-10x-flow", scenario)
 				}
+			}
+		case "poisoned":
+			// one conversion beyond ten times the flow at the maximum slip comes first in the sorted pass: everything after it is refused
+			if i == 0 {
+				h.quaiToQi(pctOf(h.flow(), 1500), 9000, 600000, "beyond-10x-flow", scenario)
+				h.quaiToQi(pctOf(h.flow(), 20), 2500, 600000, "below-flow", scenario)
+				// refunds that need several outputs, carried by an ETX with (almost) no gas
+				h.qiToQuaiTight([]uint8{6, 6, 6, 6}, 100, "below-flow", scenario)
+				h.qiToQuaiTight([]uint8{7, 6, 6}, 5000, "below-flow", scenario)
+				h.qiToQuaiTight([]uint8{8, 7, 6, 6}, 8999, "flow-to-10x", scenario)
+				h.qiToQuai([]uint8{7}, 5000, 400000, "below-flow", scenario)
 			}
 		case "fixed-set":
 			if i == 0 {
@@ -720,6 +794,12 @@ func runHistory(t testing.TB, m *mon.M, r *rand.Rand, idx, blocks int) {
 		return
 	}
 	defer n.Stop()
+	// hnet.New returns once the zone holds the genesis pending header; the dominant levels store theirs a moment later
+	for dl := time.Now().Add(20 * time.Second); time.Now().Before(dl); time.Sleep(2 * time.Millisecond) {
+		if n.Prime().Core.Slice().ReadBestPh() != nil && n.Region().Core.Slice().ReadBestPh() != nil && n.Zone().Core.Slice().ReadBestPh() != nil {
+			break
+		}
+	}
 	h := &hist{t: t, m: m, idx: idx, n: n, w: w, r: r, convs: map[common.Hash]*conv{}, tracked: map[common.AddressBytes]string{}, trackedQi: map[string]bool{},
 		snaps: map[common.Hash]utxoSnap{}, wire: map[common.Hash][3][]byte{}, inFlight: map[string]bool{}, senderBusy: map[common.AddressBytes]uint64{}, pref: pref, submitErr: map[string]int{}}
 	for _, k := range w.Quai[1:] {
@@ -741,11 +821,11 @@ func runHistory(t testing.TB, m *mon.M, r *rand.Rand, idx, blocks int) {
 		return
 	}
 	mined := func() int { return len(h.orders) }
-	scen := []string{"feed", "scripted-quai", "huge", "feed", "fixed-set", "scripted-qi"}
-	pool := []string{"mixed", "mixed", "mixed", "fixed-set", "near-bound", "scripted-quai", "scripted-qi", "huge"}
+	scen := []string{"feed", "scripted-quai", "huge", "feed", "fixed-set", "scripted-qi", "poisoned"}
+	pool := []string{"mixed", "mixed", "mixed", "fixed-set", "near-bound", "scripted-quai", "scripted-qi", "huge", "poisoned"}
 	reorgAt := -1
 	if idx%2 == 1 {
-		reorgAt = 6 + r.Intn(3)
+		reorgAt = 7 + r.Intn(3)
 	}
 	for p := 0; mined() < blocks; p++ {
 		s := pool[r.Intn(len(pool))]
@@ -836,6 +916,9 @@ func TestC20Chain(t *testing.T) {
 		"the discount pipeline (cubic, k-Quai) is not recomputed: for a reverted conversion only 'slip == MaxSlip can never be refused' is decidable from the statement")
 	rc := m.Rand("chain")
 	nh := m.N(6, 180)
+	if slipForkMode != "post" {
+		nh = m.N(3, 90) // the fork-crossing variation of the same workload
+	}
 	for hh := 0; hh < nh; hh++ {
 		runHistory(t, m, rc, hh, m.N(70, 90))
 	}
@@ -843,9 +926,8 @@ func TestC20Chain(t *testing.T) {
 	m.Need("outcome:quai->qi:credited:"+needSide(), "outcome:quai->qi:reverted:"+needSide(), "outcome:quai->qi:failed-at-origin:below-minimum", "outcome:quai->qi:out-of-gas-partial:"+needSide(),
 		"outcome:qi->quai:credited:"+needSide(), "outcome:qi->quai:reverted:"+needSide(), "walk:final", "ledger:quai-delta-as-expected", "ledger:qi-created-outputs-attributed")
 	if slipForkMode == "cross" {
-		m.Need("outcome:quai->qi:credited:pre-slip-fork", "outcome:quai->qi:credited:post-slip-fork")
+		m.Need("outcome:quai->qi:credited:pre-slip-fork", "outcome:quai->qi:credited:post-slip-fork", "outcome:qi->quai:credited:pre-slip-fork", "outcome:quai->qi:reverted:pre-slip-fork")
 	}
-	_ = strings.TrimSpace
 }
 
 func needSide() string {
